@@ -25,7 +25,7 @@ Definition z_of_limbs (l : list Z) : Z := fold_right (fun x acc => x + limb_base
 Fixpoint limbs_of_z (fuel : nat) (n : Z) : list Z :=
   match fuel with
   | O => []
-  | S f => if n =? 0 then [] else (n mod limb_base) :: limbs_of_z f (n / limb_base)
+  | S f => if n =? 0 then [] else Z.land n (limb_base - 1) :: limbs_of_z f (Z.shiftr n 30)
   end.
 
 Definition zbig_s (n : Z) : list sexp :=
